@@ -168,7 +168,7 @@ def gen_cases(ctx, binp, k, names, classes, tag, kk=None, big_limit=None, groups
     kk = kk or (2 if ctx.quick else 6)
     big_limit = big_limit or (400 if ctx.quick else 2500)
     med_limit = med_limit or (110 if ctx.quick else 900)
-    sample_n = sample_n if sample_n is not None else (0 if ctx.quick else 10)
+    sample_n = sample_n if sample_n is not None else (0 if ctx.quick else 16)
     groups = groups or (6 if ctx.quick else 12)
     valp = ""
     if sample_n > 0:
